@@ -30,3 +30,9 @@ CLAIMS["C20"] = ("interval partition of the bit index over the if/elif chains + 
  "groups, each touching byte 3-j with mask 2**(bit%8) and rebuilding the word with the other bytes in place; out-of-range and "
  "redundant operations are rejected first; the three siblings agree. Address family constants/offsets and the Time epoch/scale are "
  "folded. Complete over bit indices (finite abstraction); value-level behaviour of ipaddress/datetime is trusted.", "DESIGN.md section 4, C20")
+CLAIMS["C01"] = ("abstract byte-width dataflow of the fixed-width setters, writer/reader layout table extraction, abstract interpretation of padding over len%4 residues, must-pass checks of the length bookkeeping",
+ "The structural skeleton every serialised value passes through is decided for all paths: widths of the 11 fixed-width fields, RFC order "
+ "of header/AVP concatenation and agreement with the readers' slices, vendor-field/length coupling, padding for each of the four "
+ "residues (complete finite abstraction), Message Length bookkeeping in append/refresh/dump/_load, Grouped data as concatenation "
+ "through append, and 3/4-octet command code / application id in all 50 typed classes. Necessary conditions; equality of the data "
+ "bytes with a reference encoder for particular values is not decided.", "DESIGN.md section 4, C01")
